@@ -1,9 +1,158 @@
 import Driver.Proto
+import ScrapliModel.Lemmas.PrivSession
 namespace Driver
-open Scrapli
+namespace C04
+open Scrapli Scrapli.Priv
 
-/-- line-protocol handler for property C04 (arguments after the leading `c04` token) -/
+/-! line protocol of property C04
+
+`sess <levels> <default> <secret> <start> <ordseed> <ops>`
+  levels: records joined by `,`; record = `name:prev:esc:deesc:auth:asks:prompt:matchrow` (hex
+  fields, `-` empty; `matchrow` = one `0/1` per level *m* in list order: does this level's
+  not-contains + pattern accept the prompt of *m* — evaluated by Go's regexp on the real patterns)
+  ops: joined by `,` (`.` = none): `cmd:<hex>`, `cmds:<list>`, `cfgs:<list>:<priv>`,
+  `cfg:<hex>:<priv>`, `acq:<hex>`, `int:<list>:<priv>`; list = items joined by `+`, `_` = empty
+answer: `<dom> <model errs> <model modes> <model log> <spec errs> <spec modes> <spec log> <model caches>`
+
+`path <levels> <cur> <tgt> <ordseed>` → `<dom> <model path> <spec path>`
+`proc <levels> <cache> <tgt> <mode> <ordseed>` → `<dom> <action> <next> <cache'>`
+-/
+
+structure LvRec where
+  lv : Level
+  asks : Bool
+  prompt : Bytes
+  row : List Bool
+
+def parseBits (s : String) : List Bool := if s == "-" then [] else s.toList.map (· == '1')
+
+def parseLevel (s : String) : Option LvRec :=
+  match s.splitOn ":" with
+  | [n, p, e, d, au, ak, pr, row] => do
+    let n ← fromHex n; let p ← fromHex p; let e ← fromHex e; let d ← fromHex d
+    let pr ← fromHex pr
+    some { lv := { name := n, previous := p, escalate := e, deescalate := d, escalateAuth := s2b au },
+           asks := s2b ak, prompt := pr, row := parseBits row }
+  | _ => none
+
+def parseLevels (s : String) : Option (List LvRec) :=
+  if s == "." then some [] else (s.splitOn ",").mapM parseLevel
+
+def parseList (s : String) : Option (List Bytes) :=
+  if s == "_" then some [] else (s.splitOn "+").mapM fromHex
+
+def parseOp (s : String) : Option Op :=
+  match s.splitOn ":" with
+  | ["cmd", a] => do some (.sendCommand (← fromHex a))
+  | ["cmds", l] => do some (.sendCommands (← parseList l))
+  | ["cfgs", l, p] => do some (.sendConfigs (← parseList l) (← fromHex p))
+  | ["cfg", a, p] => do some (.sendConfig (← fromHex a) (← fromHex p))
+  | ["acq", a] => do some (.acquirePriv (← fromHex a))
+  | ["int", l, p] => do some (.sendInteractive (← parseList l) (← fromHex p))
+  | _ => none
+
+def parseOps (s : String) : Option (List Op) :=
+  if s == "." then some [] else (s.splitOn ",").mapM parseOp
+
+def rotate {α : Type} (l : List α) (k : Nat) : List α :=
+  if l.isEmpty then l else l.drop (k % l.length) ++ l.take (k % l.length)
+
+/-- a family of valid map-iteration oracles selected by a seed: rotations and reversals that
+differ per tick and per working-steps length -/
+def seedOrders (seed : Nat) (t : Nat) : Orders where
+  nbr := fun ws l =>
+    let r := rotate l (seed + 3 * t + ws.length)
+    if (seed / 7 + t + ws.length) % 2 == 0 then r else r.reverse
+  lv := fun l =>
+    let r := rotate l (seed / 3 + t)
+    if (seed / 5 + t) % 2 == 0 then r else r.reverse
+
+def mkCfg (rs : List LvRec) (default secret : Bytes) (seed : Nat) : Cfg where
+  L := rs.map (·.lv)
+  default := default
+  secret := secret
+  asks := fun x => (rs.find? (·.lv.name == x)).map (·.asks) |>.getD false
+  promptOf := fun m => (rs.find? (·.lv.name == m)).map (·.prompt) |>.getD []
+  matchP := fun l p =>
+    -- the level's row, at the index of the level whose prompt this is
+    match rs.find? (·.lv.name == l.name) with
+    | none => false
+    | some r => ((rs.zip r.row).find? (fun x => x.1.prompt == p)).map (·.2) |>.getD false
+  orc := seedOrders seed
+
+def errName : Option Err → String
+  | none => "nil" | some .privilege => "privilege" | some .timeout => "timeout"
+  | some .noop => "noop" | some .panic => "panic"
+
+def showLog (l : List (Bytes × Bytes)) : String :=
+  if l.isEmpty then "." else ",".intercalate (l.map fun e => toHex e.1 ++ ":" ++ toHex e.2)
+
+def showList (l : List String) : String := if l.isEmpty then "." else ",".intercalate l
+
+/-- the model of the code: run the operations one by one, record error and device mode after each -/
+def modelRun (c : Cfg) : Sess → List Op → List String × List String × List String × Sess
+  | s, [] => ([], [], [], s)
+  | s, op :: ops =>
+    let (e, s1) := runOp c s op
+    let (es, ms, cs, s2) := modelRun c s1 ops
+    (errName e :: es, toHex s1.dev.mode :: ms, toHex s1.cache :: cs, s2)
+
+/-- the property's demand, computed without the search and without the loop: refused when the
+level is unknown; otherwise (unless `SendCommand(s)` finds the default cached) the acquisition log
+along `treePath`, then the payload lines in the level -/
+def specRun (c : Cfg) : Bytes → Bytes → List Op → List String × List String × List (Bytes × Bytes)
+  | _, _, [] => ([], [], [])
+  | mode, cache, op :: ops =>
+    let lvl := opLevel c op
+    let skip := opSkips c { dev := { mode := mode, awaiting := none, log := [] }, cache := cache, tick := 0 } op
+    if !skip && !(names c.L).contains lvl then
+      let (es, ms, lg) := specRun c mode cache ops
+      ("privilege" :: es, toHex mode :: ms, lg)
+    else
+      let entries := (if skip then [] else expectedLog c (treePath c.L mode lvl)) ++
+        (opLines op).map fun l => (lvl, l)
+      let (es, ms, lg) := specRun c lvl lvl ops
+      (errName (opErr op) :: es, toHex lvl :: ms, entries ++ lg)
+
+def showPath : Option (List Bytes) → String
+  | none => "none"
+  | some p => if p.isEmpty then "_" else "+".intercalate (p.map toHex)
+
+end C04
+open Scrapli Scrapli.Priv C04
+
 def handleC04 : List String → String
+  | ["sess", lv, dflt, sec, start, seed, ops] =>
+    match parseLevels lv, fromHex dflt, fromHex sec, fromHex start, seed.toNat?, parseOps ops with
+    | some rs, some dflt, some sec, some start, some seed, some ops =>
+      let c := mkCfg rs dflt sec seed
+      let payloadOK := ops.all fun op => (opLines op).all fun l => l.isEmpty || isPayload c.L l
+      let dom := isTree c.L && distinguishes c && cmdsOK c.L && asksOK c &&
+        (names c.L).contains dflt && (names c.L).contains start && payloadOK
+      let s0 : Sess := { dev := { mode := start, awaiting := none, log := [] }, cache := [], tick := 0 }
+      let (mes, mms, mcs, s1) := modelRun c s0 ops
+      let (ses, sms, slog) := specRun c start [] ops
+      s!"{b2s dom} {showList mes} {showList mms} {showLog s1.dev.log} {showList ses} {showList sms} {showLog slog} {showList mcs}"
+    | _, _, _, _, _, _ => "bad-op"
+  | ["path", lv, cur, tgt, seed] =>
+    match parseLevels lv, fromHex cur, fromHex tgt, seed.toNat? with
+    | some rs, some cur, some tgt, some seed =>
+      let c := mkCfg rs [] [] seed
+      let dom := isTree c.L && (names c.L).contains cur && (names c.L).contains tgt
+      s!"{b2s dom} {showPath (pathDFS c.L (c.orc 0) cur tgt)} {showPath (some (treePath c.L cur tgt))}"
+    | _, _, _, _ => "bad-op"
+  | ["proc", lv, cache, tgt, mode, seed] =>
+    match parseLevels lv, fromHex cache, fromHex tgt, fromHex mode, seed.toNat? with
+    | some rs, some cache, some tgt, some mode, some seed =>
+      let c := mkCfg rs [] [] seed
+      let dom := isTree c.L && distinguishes c && (names c.L).contains mode && (names c.L).contains tgt
+      match processAcquire c.matchP (c.orc 0) c.L cache tgt (c.promptOf mode) with
+      | .error e => s!"{b2s dom} error {errName (some e)} -"
+      | .ok st =>
+        let a := match st.action with
+          | .noAction => "noAction" | .escalate => "escalateAction" | .deescalate => "deescalateAction"
+        s!"{b2s dom} {a} {toHex st.next} {toHex st.cache}"
+    | _, _, _, _, _ => "bad-op"
   | _ => "bad-op"
 
 end Driver
